@@ -8,6 +8,7 @@ CONSTANTS
   MaxNextF = 6
   TrackFiles = FALSE
   MaxSnaps = 1
+  AllowRepair = FALSE
   UseBoundary = TRUE
   DropTombstoneAlways = FALSE
 INVARIANT ReadLatest
